@@ -20,7 +20,7 @@ ASSUMPTIONS = [
     "termination is restated as: each step finishes within 2 s of process CPU time",
     "bounded history length (30..300 steps); CO_NODE zero-filled except in the junk-fill configuration sample",
 ]
-VARIANTS = ["asan", "asan2",
+VARIANTS = ["asan", "asan2", "msan",
             ("casan", ("cosim.c",), "cosim", {"thorough_only": True}),
             ("plain", ("cosim.c",), "cosim", {"thorough_only": True})]
 
@@ -128,6 +128,8 @@ def plan(tier, seed):
         variant = "asan2" if i % 3 == 2 else "asan"
         if tier == "thorough" and i % 10 == 9:
             variant = "casan"
+        if i % 5 == 4:
+            variant = "msan"          # MemorySanitizer build: use of uninitialised values, frames carrying uninitialised bytes
         items.append(("fuzz", variant, i, per))
     if tier == "thorough":
         for i in range(12):
